@@ -304,12 +304,6 @@ Definition norm_fty (env : enum_env) (t : fty) : fty :=
   | t => t
   end.
 
-Definition is_primary_ty (t : fty) : bool :=
-  match t with
-  | TKey _ (Some e) _ => match ek_type e with Some (EPrimary true) => true | _ => false end
-  | _ => false
-  end.
-
 Definition norm_prop (env : enum_env) (idx : N) (d : prop) : rprop :=
   let t := match p_ty d with PSingle t | PArray _ _ t | PMap _ t => t end in
   RP (P (p_name d) (p_req d || match p_ty d with PMap _ _ => false | _ => is_primary_ty t end) (p_opt d)
